@@ -62,6 +62,16 @@ pub fn calls() -> [u64; NCLASS] {
 pub fn cmp_count() -> u64 {
     CALLS.with(|c| c.get()[C_CMP])
 }
+thread_local! {
+    static CMP_BASE: Cell<u64> = const { Cell::new(0) };
+}
+/// Start counting the comparisons of "the operation itself" from here.
+pub fn mark_cmp() {
+    CMP_BASE.with(|c| c.set(cmp_count()));
+}
+pub fn cmps_since_mark() -> u64 {
+    cmp_count() - CMP_BASE.with(|c| c.get())
+}
 pub fn arm(class: usize, index: u64) {
     FIRED.with(|x| x.set(false));
     ARMED.with(|x| x.set(Some((class, index))));
